@@ -86,6 +86,76 @@ use crate::{
 use alloc::{format, string::String, vec, vec::Vec};
 use regex::Regex;
 
+type ListenerSender = Option<crate::dcps::channels::mpsc::MpscSender<ListenerMail>>;
+
+/// A data writer lost a match: PUBLICATION_MATCHED goes to the listener of the writer if its mask
+/// enables the status, else to the publisher's, else to the participant's.
+fn notify_publication_match_lost(
+    the_writer: DataWriterAsync<()>,
+    data_writer: &mut UserDefinedDataWriter,
+    publisher_listener: (crate::dcps::status_mask::StatusMask, &ListenerSender),
+    participant_listener: (crate::dcps::status_mask::StatusMask, &ListenerSender),
+) {
+    let listener_sender = if data_writer
+        .listener_mask
+        .is_enabled(&StatusKind::PublicationMatched)
+    {
+        &data_writer.listener_sender
+    } else if publisher_listener
+        .0
+        .is_enabled(&StatusKind::PublicationMatched)
+    {
+        publisher_listener.1
+    } else if participant_listener
+        .0
+        .is_enabled(&StatusKind::PublicationMatched)
+    {
+        participant_listener.1
+    } else {
+        &None
+    };
+    if let Some(l) = listener_sender {
+        let l = l.clone();
+        let status = data_writer.publication_matched_status.get();
+        l.send(ListenerMail::PublicationMatched { the_writer, status })
+            .ok();
+    }
+}
+
+/// A data reader lost a match: SUBSCRIPTION_MATCHED goes to the listener of the reader if its mask
+/// enables the status, else to the subscriber's, else to the participant's.
+fn notify_subscription_match_lost(
+    the_reader: DataReaderAsync<()>,
+    data_reader: &mut UserDefinedDataReader,
+    subscriber_listener: (crate::dcps::status_mask::StatusMask, &ListenerSender),
+    participant_listener: (crate::dcps::status_mask::StatusMask, &ListenerSender),
+) {
+    let listener_sender = if data_reader
+        .listener_mask
+        .is_enabled(&StatusKind::SubscriptionMatched)
+    {
+        &data_reader.listener_sender
+    } else if subscriber_listener
+        .0
+        .is_enabled(&StatusKind::SubscriptionMatched)
+    {
+        subscriber_listener.1
+    } else if participant_listener
+        .0
+        .is_enabled(&StatusKind::SubscriptionMatched)
+    {
+        participant_listener.1
+    } else {
+        &None
+    };
+    if let Some(l) = listener_sender {
+        let l = l.clone();
+        let status = data_reader.get_subscription_matched_status();
+        l.send(ListenerMail::SubscriptionMatched { the_reader, status })
+            .ok();
+    }
+}
+
 impl DcpsDomainParticipant {
     pub fn announce_participant_if_needed(&mut self, runtime: &impl DdsRuntime) {
         let now = runtime.clock().now();
@@ -1216,6 +1286,15 @@ impl DcpsDomainParticipant {
                                         data_writer
                                             .transport_writer
                                             .delete_matched_reader(subscription_key.into());
+                                        notify_publication_match_lost(
+                                            the_writer.clone(),
+                                            data_writer,
+                                            (publisher.listener_mask, &publisher.listener_sender),
+                                            (
+                                                self.domain_participant.listener_mask,
+                                                &self.domain_participant.listener_sender,
+                                            ),
+                                        );
                                         data_writer.status_condition.add_communication_state(
                                             StatusKind::PublicationMatched,
                                         );
@@ -1397,35 +1476,15 @@ impl DcpsDomainParticipant {
                 );
                 let the_writer =
                     DataWriterAsync::new(data_writer.instance_handle, the_publisher, the_topic);
-                if data_writer
-                    .listener_mask
-                    .is_enabled(&StatusKind::PublicationMatched)
-                {
-                    let status = data_writer.publication_matched_status.get();
-                    if let Some(l) = &data_writer.listener_sender {
-                        l.send(ListenerMail::PublicationMatched { the_writer, status })
-                            .ok();
-                    }
-                } else if publisher
-                    .listener_mask
-                    .is_enabled(&StatusKind::PublicationMatched)
-                {
-                    let status = data_writer.publication_matched_status.get();
-                    if let Some(l) = &publisher.listener_sender {
-                        l.send(ListenerMail::PublicationMatched { the_writer, status })
-                            .ok();
-                    }
-                } else if self
-                    .domain_participant
-                    .listener_mask
-                    .is_enabled(&StatusKind::PublicationMatched)
-                {
-                    let status = data_writer.publication_matched_status.get();
-                    if let Some(l) = &self.domain_participant.listener_sender {
-                        l.send(ListenerMail::PublicationMatched { the_writer, status })
-                            .ok();
-                    }
-                }
+                notify_publication_match_lost(
+                    the_writer,
+                    data_writer,
+                    (publisher.listener_mask, &publisher.listener_sender),
+                    (
+                        self.domain_participant.listener_mask,
+                        &self.domain_participant.listener_sender,
+                    ),
+                );
             }
 
             data_writer
@@ -1832,6 +1891,15 @@ impl DcpsDomainParticipant {
                                         data_reader
                                             .transport_reader
                                             .delete_matched_writer(publication_key.into());
+                                        notify_subscription_match_lost(
+                                            the_reader.clone(),
+                                            data_reader,
+                                            (subscriber_listener_mask, &subscriber_listener_sender),
+                                            (
+                                                self.domain_participant.listener_mask,
+                                                &self.domain_participant.listener_sender,
+                                            ),
+                                        );
                                     }
                                     let is_status_changed = data_reader
                                         .add_requested_incompatible_qos(
@@ -2007,32 +2075,15 @@ impl DcpsDomainParticipant {
                     data_reader.topic_name.clone(),
                     topic.type_name.clone(),
                 );
-                if data_reader
-                    .listener_mask
-                    .is_enabled(&StatusKind::SubscriptionMatched)
-                {
-                    let status = data_reader.get_subscription_matched_status();
-                    if let Some(l) = &data_reader.listener_sender {
-                        l.send(ListenerMail::SubscriptionMatched { the_reader, status })
-                            .ok();
-                    }
-                } else if subscriber_listener_mask.is_enabled(&StatusKind::SubscriptionMatched) {
-                    let status = data_reader.get_subscription_matched_status();
-                    if let Some(l) = &subscriber_listener_sender {
-                        l.send(ListenerMail::SubscriptionMatched { the_reader, status })
-                            .ok();
-                    }
-                } else if self
-                    .domain_participant
-                    .listener_mask
-                    .is_enabled(&StatusKind::SubscriptionMatched)
-                {
-                    let status = data_reader.get_subscription_matched_status();
-                    if let Some(l) = &self.domain_participant.listener_sender {
-                        l.send(ListenerMail::SubscriptionMatched { the_reader, status })
-                            .ok();
-                    }
-                }
+                notify_subscription_match_lost(
+                    the_reader,
+                    data_reader,
+                    (subscriber_listener_mask, &subscriber_listener_sender),
+                    (
+                        self.domain_participant.listener_mask,
+                        &self.domain_participant.listener_sender,
+                    ),
+                );
             }
             data_reader
                 .transport_reader
@@ -2814,49 +2865,58 @@ impl DcpsDomainParticipant {
 
         let prefix = Guid::from(<[u8; 16]>::from(*handle)).prefix();
 
+        let mut lost_publication_matches = Vec::new();
         for subscriber in &mut self.domain_participant.user_defined_subscriber_list {
+            let subscriber_handle = subscriber.instance_handle;
             for data_reader in &mut subscriber.data_reader_list {
                 // Remove samples
                 data_reader
                     .sample_list
                     .retain(|sample| sample.writer_guid[..12] != prefix);
 
-                let removed_writer_guids: Vec<_> = data_reader
-                    .matched_publication_list
-                    .iter()
-                    .filter(|m| m.key.value[0..12] == prefix)
-                    .map(|m| m.key.value)
-                    .collect();
-                for key in removed_writer_guids {
-                    // updates the matched list, the status and the status condition
-                    data_reader.remove_matched_publication(&InstanceHandle::new(key));
+                lost_publication_matches.extend(
                     data_reader
-                        .transport_reader
-                        .delete_matched_writer(key.into());
-                }
+                        .matched_publication_list
+                        .iter()
+                        .filter(|m| m.key.value[0..12] == prefix)
+                        .map(|m| {
+                            (
+                                InstanceHandle::new(m.key.value),
+                                subscriber_handle,
+                                data_reader.instance_handle,
+                            )
+                        }),
+                );
             }
         }
+        for (publication_handle, subscriber_handle, data_reader_handle) in lost_publication_matches
+        {
+            // updates the matched list, the status, the RTPS proxy and notifies the listener
+            self.remove_discovered_writer(publication_handle, subscriber_handle, data_reader_handle);
+        }
 
-        for publisher in &mut self.domain_participant.user_defined_publisher_list {
-            for data_writer in &mut publisher.data_writer_list {
-                let removed_reader_guids: Vec<_> = data_writer
-                    .matched_subscription_list
-                    .iter()
-                    .filter(|m| m.key.value[..12] == prefix)
-                    .map(|m| m.key.value)
-                    .collect();
-                for key in removed_reader_guids {
-                    // updates the matched list and the status
-                    data_writer.remove_matched_subscription(&InstanceHandle::new(key));
+        let mut lost_subscription_matches = Vec::new();
+        for publisher in &self.domain_participant.user_defined_publisher_list {
+            for data_writer in &publisher.data_writer_list {
+                lost_subscription_matches.extend(
                     data_writer
-                        .writer
-                        .transport_writer
-                        .delete_matched_reader(key.into());
-                    data_writer
-                        .status_condition
-                        .add_communication_state(StatusKind::PublicationMatched);
-                }
+                        .matched_subscription_list
+                        .iter()
+                        .filter(|m| m.key.value[..12] == prefix)
+                        .map(|m| {
+                            (
+                                InstanceHandle::new(m.key.value),
+                                publisher.instance_handle,
+                                data_writer.instance_handle,
+                            )
+                        }),
+                );
             }
+        }
+        for (subscription_handle, publisher_handle, data_writer_handle) in lost_subscription_matches
+        {
+            // updates the matched list, the status, the RTPS proxy and notifies the listener
+            self.remove_discovered_reader(subscription_handle, publisher_handle, data_writer_handle);
         }
 
         // The endpoints of the departed participant must not be matched again by the next
